@@ -83,7 +83,7 @@ func lockName(v ssa.Value) string {
 	if f, base, ok := fieldAddr(v); ok {
 		n := namedOf(base.Type())
 		if n != nil {
-			return n.Obj().Name() + "." + f.Name()
+			return n.Obj().Name() + "." + theProgram.baseFieldName(f)
 		}
 		return f.Name()
 	}
@@ -94,7 +94,7 @@ func lockName(v ssa.Value) string {
 	if f, base, ok := fieldLoad(v); ok {
 		n := namedOf(base.Type())
 		if n != nil {
-			return n.Obj().Name() + "." + f.Name()
+			return n.Obj().Name() + "." + theProgram.baseFieldName(f)
 		}
 		return f.Name()
 	}
